@@ -272,4 +272,59 @@ theorem power_mono_effect_t_partial (P : Prims α) (hT : NctMono P) (o : PowerOp
     simp only [ha, ht, if_true, show ¬ ("less" : String) = "greater" by decide, if_false]
     exact hT.cdf _ _ _ _ (div_le_div_of_nonneg_right hd hse.le)
 
+/-- for the one-sided level-`a` t test, the rejection probability at a fixed non-centrality in the
+direction of the alternative does not decrease with the degrees of freedom (assumed of
+`scipy.stats.t` / `nct`; sampled on a grid each run) -/
+structure TTestMonoDf (P : Prims α) (a : α) : Prop where
+  greater : ∀ df df' nc, df ≤ df' → 0 ≤ nc →
+    (P.nct df nc).sf ((P.t df).isf a) ≤ (P.nct df' nc).sf ((P.t df').isf a)
+  less : ∀ df df' nc, df ≤ df' → nc ≤ 0 →
+    (P.nct df nc).cdf ((P.t df).ppf a) ≤ (P.nct df' nc).cdf ((P.t df').ppf a)
+
+/-- the pooled degrees of freedom `n − 2` grow with `n` -/
+theorem degF_pooled_mono_n (o : PowerOpts α) (v n n' : α) (he : o.equal_var = true) (hr : 0 < o.ratio)
+    (hnn : n ≤ n') :
+    degF o.test v (nControl n o.ratio) v (nTreatment n o.ratio)
+      ≤ degF o.test v (nControl n' o.ratio) v (nTreatment n' o.ratio) := by
+  have h1 : (1 : α) + o.ratio ≠ 0 := by linarith
+  have e : ∀ m : α, nControl m o.ratio + nTreatment m o.ratio = m := by
+    intro m; unfold nControl nTreatment; field_simp
+  simp only [degF, PowerOpts.test, he, if_true, e]
+  linarith
+
+/-- **power never decreases when the total sample size grows** (t test, one-sided, effect in the
+direction of the alternative), given that the non-central t family is stochastically increasing
+in `nc` (`NctMono`), that the level-alpha t test does not lose power with more degrees of freedom
+(`TTestMonoDf`) and that the degrees of freedom do not decrease from `n` to `n'` (`hdf`: proved
+for the pooled test in `degF_pooled_mono_n`; for Welch's test with equal group variances it is
+checked numerically).  `_partial`: the two laws are hypotheses about scipy's distributions, and
+the two-sided case is checked numerically, not proved. -/
+theorem power_mono_n_t_partial (P : Prims α) (hP : P.Laws) (hT : NctMono P) (o : PowerOpts α)
+    (hD : TTestMonoDf P o.alpha) (v n n' d : α)
+    (ht : o.use_t = true) (hv : 0 ≤ v) (hr : 0 < o.ratio) (hn : 2 < n) (hnn : n ≤ n')
+    (hse' : 0 < powerSe P o v n')
+    (hdf : degF o.test v (nControl n o.ratio) v (nTreatment n o.ratio)
+      ≤ degF o.test v (nControl n' o.ratio) v (nTreatment n' o.ratio)) :
+    (o.alternative = "greater" → 0 ≤ d → power P o v n d ≤ power P o v n' d) ∧
+    (o.alternative = "less" → d ≤ 0 → power P o v n d ≤ power P o v n' d) := by
+  have hle := powerSe_antitone_n hP o v n n' hv hr hn hnn
+  have hse : 0 < powerSe P o v n := lt_of_lt_of_le hse' hle
+  have htt : o.test.use_t = true := ht
+  constructor
+  · intro ha hd
+    unfold power altDist nullDist refDist
+    simp only [ha, ht, htt, if_true]
+    have hnc : d / powerSe P o v n ≤ d / powerSe P o v n' := div_le_div_of_nonneg_left hd hse' hle
+    have hnc0 : 0 ≤ d / powerSe P o v n' := div_nonneg hd hse'.le
+    exact le_trans (hT.sf _ _ _ _ hnc) (hD.greater _ _ _ hdf hnc0)
+  · intro ha hd
+    unfold power altDist nullDist refDist
+    simp only [ha, ht, htt, if_true, show ¬ ("less" : String) = "greater" by decide, if_false]
+    have hnc : d / powerSe P o v n' ≤ d / powerSe P o v n := by
+      have := div_le_div_of_nonneg_left (show 0 ≤ -d by linarith) hse' hle
+      rw [neg_div, neg_div] at this
+      linarith
+    have hnc0 : d / powerSe P o v n' ≤ 0 := div_nonpos_of_nonpos_of_nonneg hd hse'.le
+    exact le_trans (hT.cdf _ _ _ _ hnc) (hD.less _ _ _ hdf hnc0)
+
 end C08
